@@ -1,0 +1,394 @@
+//go:build verif
+
+// Contracts for govc (contract-based deductive verification); comments only.
+package proportion
+
+// add(q, s, r): amount added to a per-queue counter of attributes object q by an event on queue id s:
+// r for every queue on the parent chain of s (s itself and all its ancestors), 0 for every other queue.
+//@ define add(queues map[common_info.QueueID]*rs.QueueAttributes, s common_info.QueueID, q *rs.QueueAttributes, r real) real = ite(utils.onChain(queues, s, q), r, 0.0)
+// same, restricted to the chain prefix already processed when the loop is at `cur` (all of it when !ok)
+//@ define addUpTo(queues map[common_info.QueueID]*rs.QueueAttributes, s common_info.QueueID, q *rs.QueueAttributes, ok bool, cur *rs.QueueAttributes, r real) real = ite(utils.onChain(queues, s, q) && (!ok || utils.lvl(q) < utils.lvl(cur)), r, 0.0)
+
+// C14 (QueueInv, establish): a task of an allocated job is charged to its queue and to EVERY ancestor:
+// Allocated and Request grow by the task's quantities, AllocatedNotPreemptible iff the job is
+// non-preemptible; no other queue changes (C08 frame). C10: terminates on an acyclic chain.
+//@ func (*proportionPlugin).updateQueuesResourceUsageForAllocatedJob
+//@   props C14 C08 C10
+//@   requires pp != nil
+//@   requires utils.chainOK(pp.queues, queueId)
+//@   modifies family(pp.queues[queueId].CPU.Allocated), family(pp.queues[queueId].CPU.Request), family(pp.queues[queueId].CPU.AllocatedNotPreemptible)
+//@   loop 1
+//@     invariant ok ==> utils.onChain(pp.queues, queueId, queueAttributes)
+//@     invariant forall q *rs.QueueAttributes :: q.CPU.Allocated == old(q.CPU.Allocated) + addUpTo(pp.queues, queueId, q, ok, queueAttributes, resourceQuantities["CPU"])
+//@     invariant forall q *rs.QueueAttributes :: q.CPU.Request == old(q.CPU.Request) + addUpTo(pp.queues, queueId, q, ok, queueAttributes, resourceQuantities["CPU"])
+//@     invariant forall q *rs.QueueAttributes :: q.CPU.AllocatedNotPreemptible == old(q.CPU.AllocatedNotPreemptible) + addUpTo(pp.queues, queueId, q, ok, queueAttributes, ite(!preemptibleJob, resourceQuantities["CPU"], 0.0))
+//@     invariant forall q *rs.QueueAttributes :: q.Memory.Allocated == old(q.Memory.Allocated) + addUpTo(pp.queues, queueId, q, ok, queueAttributes, resourceQuantities["Memory"])
+//@     invariant forall q *rs.QueueAttributes :: q.Memory.Request == old(q.Memory.Request) + addUpTo(pp.queues, queueId, q, ok, queueAttributes, resourceQuantities["Memory"])
+//@     invariant forall q *rs.QueueAttributes :: q.Memory.AllocatedNotPreemptible == old(q.Memory.AllocatedNotPreemptible) + addUpTo(pp.queues, queueId, q, ok, queueAttributes, ite(!preemptibleJob, resourceQuantities["Memory"], 0.0))
+//@     invariant forall q *rs.QueueAttributes :: q.GPU.Allocated == old(q.GPU.Allocated) + addUpTo(pp.queues, queueId, q, ok, queueAttributes, resourceQuantities["GPU"])
+//@     invariant forall q *rs.QueueAttributes :: q.GPU.Request == old(q.GPU.Request) + addUpTo(pp.queues, queueId, q, ok, queueAttributes, resourceQuantities["GPU"])
+//@     invariant forall q *rs.QueueAttributes :: q.GPU.AllocatedNotPreemptible == old(q.GPU.AllocatedNotPreemptible) + addUpTo(pp.queues, queueId, q, ok, queueAttributes, ite(!preemptibleJob, resourceQuantities["GPU"], 0.0))
+//@     decreases ite(ok, utils.depth(queueId) - utils.lvl(queueAttributes), 0)
+//@   loop 2 unroll 3
+//@   ensures [CPUAllocated] forall q *rs.QueueAttributes :: q.CPU.Allocated == old(q.CPU.Allocated) + add(pp.queues, queueId, q, resourceQuantities["CPU"])
+//@   ensures [CPURequest] forall q *rs.QueueAttributes :: q.CPU.Request == old(q.CPU.Request) + add(pp.queues, queueId, q, resourceQuantities["CPU"])
+//@   ensures [CPUAllocatedNotPreemptible] forall q *rs.QueueAttributes :: q.CPU.AllocatedNotPreemptible == old(q.CPU.AllocatedNotPreemptible) + add(pp.queues, queueId, q, ite(!preemptibleJob, resourceQuantities["CPU"], 0.0))
+//@   ensures [MemoryAllocated] forall q *rs.QueueAttributes :: q.Memory.Allocated == old(q.Memory.Allocated) + add(pp.queues, queueId, q, resourceQuantities["Memory"])
+//@   ensures [MemoryRequest] forall q *rs.QueueAttributes :: q.Memory.Request == old(q.Memory.Request) + add(pp.queues, queueId, q, resourceQuantities["Memory"])
+//@   ensures [MemoryAllocatedNotPreemptible] forall q *rs.QueueAttributes :: q.Memory.AllocatedNotPreemptible == old(q.Memory.AllocatedNotPreemptible) + add(pp.queues, queueId, q, ite(!preemptibleJob, resourceQuantities["Memory"], 0.0))
+//@   ensures [GPUAllocated] forall q *rs.QueueAttributes :: q.GPU.Allocated == old(q.GPU.Allocated) + add(pp.queues, queueId, q, resourceQuantities["GPU"])
+//@   ensures [GPURequest] forall q *rs.QueueAttributes :: q.GPU.Request == old(q.GPU.Request) + add(pp.queues, queueId, q, resourceQuantities["GPU"])
+//@   ensures [GPUAllocatedNotPreemptible] forall q *rs.QueueAttributes :: q.GPU.AllocatedNotPreemptible == old(q.GPU.AllocatedNotPreemptible) + add(pp.queues, queueId, q, ite(!preemptibleJob, resourceQuantities["GPU"], 0.0))
+//@ end
+
+// Pending tasks only raise Request, at every level of the chain; nothing else changes.
+//@ func (*proportionPlugin).updateQueuesResourceUsageForPendingJob
+//@   props C14 C10
+//@   requires pp != nil
+//@   requires utils.chainOK(pp.queues, queueId)
+//@   modifies family(pp.queues[queueId].CPU.Request)
+//@   loop 1
+//@     invariant ok ==> utils.onChain(pp.queues, queueId, queueAttributes)
+//@     invariant forall q *rs.QueueAttributes :: q.CPU.Request == old(q.CPU.Request) + addUpTo(pp.queues, queueId, q, ok, queueAttributes, resourceQuantities["CPU"])
+//@     invariant forall q *rs.QueueAttributes :: q.Memory.Request == old(q.Memory.Request) + addUpTo(pp.queues, queueId, q, ok, queueAttributes, resourceQuantities["Memory"])
+//@     invariant forall q *rs.QueueAttributes :: q.GPU.Request == old(q.GPU.Request) + addUpTo(pp.queues, queueId, q, ok, queueAttributes, resourceQuantities["GPU"])
+//@     decreases ite(ok, utils.depth(queueId) - utils.lvl(queueAttributes), 0)
+//@   loop 2 unroll 3
+//@   ensures [CPURequest] forall q *rs.QueueAttributes :: q.CPU.Request == old(q.CPU.Request) + add(pp.queues, queueId, q, resourceQuantities["CPU"])
+//@   ensures [MemoryRequest] forall q *rs.QueueAttributes :: q.Memory.Request == old(q.Memory.Request) + add(pp.queues, queueId, q, resourceQuantities["Memory"])
+//@   ensures [GPURequest] forall q *rs.QueueAttributes :: q.GPU.Request == old(q.GPU.Request) + add(pp.queues, queueId, q, resourceQuantities["GPU"])
+//@ end
+
+// n-th queue object on the parent chain of queue id s
+//@ define chainQ(queues map[common_info.QueueID]*rs.QueueAttributes, s common_info.QueueID, n int) *rs.QueueAttributes = queues[utils.anc(s, n)]
+// C08 running-sum step (DESIGN: L limitInvariant): a counter that passed the check `okQty(bound, before, r)` is, after
+// being charged, within its bound (or the bound is -1 = unlimited, or it was not raised at all).
+//@ define stays(bound real, after real, before real) bool = bound == -1.0 || after <= bound || after == before
+
+// ---- event handlers (closures) ----------------------------------------------------
+// Property C08 (mechanism "allocate/deallocate event handlers keep Allocated and AllocatedNotPreemptible
+// current"): for the queue of the task's job and EVERY ancestor q: Allocated'(q) = Allocated(q) + r in all
+// three resources (r = quantities of the task's AcceptedResource), AllocatedNotPreemptible likewise iff
+// the job is non-preemptible; every other queue (and every other field) is unchanged.
+//@ func (*proportionPlugin).allocateHandlerFn$1
+//@   props C08 C14 C10
+//@   requires pp != nil && ssn != nil && ssn.ClusterInfo != nil && event != nil && event.Task != nil && event.Task.AcceptedResource != nil
+//@   requires ssn.ClusterInfo.PodGroupInfos[event.Task.Job] != nil
+//@   requires utils.chainOK(pp.queues, ssn.ClusterInfo.PodGroupInfos[event.Task.Job].Queue) && utils.depth(ssn.ClusterInfo.PodGroupInfos[event.Task.Job].Queue) >= 1
+//@   modifies family(pp.queues[ssn.ClusterInfo.PodGroupInfos[event.Task.Job].Queue].CPU.Allocated), family(pp.queues[ssn.ClusterInfo.PodGroupInfos[event.Task.Job].Queue].CPU.AllocatedNotPreemptible)
+//@   loop 1
+//@     invariant ok ==> utils.onChain(pp.queues, job.Queue, queue)
+//@     invariant forall q *rs.QueueAttributes :: q.CPU.Allocated == old(q.CPU.Allocated) + addUpTo(pp.queues, job.Queue, q, ok, queue, taskResources["CPU"])
+//@     invariant forall q *rs.QueueAttributes :: q.CPU.AllocatedNotPreemptible == old(q.CPU.AllocatedNotPreemptible) + addUpTo(pp.queues, job.Queue, q, ok, queue, ite(isPreemptibleJob, 0.0, taskResources["CPU"]))
+//@     invariant forall q *rs.QueueAttributes :: q.Memory.Allocated == old(q.Memory.Allocated) + addUpTo(pp.queues, job.Queue, q, ok, queue, taskResources["Memory"])
+//@     invariant forall q *rs.QueueAttributes :: q.Memory.AllocatedNotPreemptible == old(q.Memory.AllocatedNotPreemptible) + addUpTo(pp.queues, job.Queue, q, ok, queue, ite(isPreemptibleJob, 0.0, taskResources["Memory"]))
+//@     invariant forall q *rs.QueueAttributes :: q.GPU.Allocated == old(q.GPU.Allocated) + addUpTo(pp.queues, job.Queue, q, ok, queue, taskResources["GPU"])
+//@     invariant forall q *rs.QueueAttributes :: q.GPU.AllocatedNotPreemptible == old(q.GPU.AllocatedNotPreemptible) + addUpTo(pp.queues, job.Queue, q, ok, queue, ite(isPreemptibleJob, 0.0, taskResources["GPU"]))
+//@     decreases ite(ok, utils.depth(job.Queue) - utils.lvl(queue), 0)
+//@   loop 2 unroll 3
+//@   ensures [CPUAllocated] forall q *rs.QueueAttributes :: q.CPU.Allocated == old(q.CPU.Allocated) + add(pp.queues, ssn.ClusterInfo.PodGroupInfos[event.Task.Job].Queue, q, event.Task.AcceptedResource.milliCpu)
+//@   ensures [CPUAllocatedNotPreemptible] forall q *rs.QueueAttributes :: q.CPU.AllocatedNotPreemptible == old(q.CPU.AllocatedNotPreemptible) + add(pp.queues, ssn.ClusterInfo.PodGroupInfos[event.Task.Job].Queue, q, ite(ssn.ClusterInfo.PodGroupInfos[event.Task.Job].Preemptibility == "preemptible", 0.0, event.Task.AcceptedResource.milliCpu))
+//@   ensures [MemoryAllocated] forall q *rs.QueueAttributes :: q.Memory.Allocated == old(q.Memory.Allocated) + add(pp.queues, ssn.ClusterInfo.PodGroupInfos[event.Task.Job].Queue, q, event.Task.AcceptedResource.memory)
+//@   ensures [MemoryAllocatedNotPreemptible] forall q *rs.QueueAttributes :: q.Memory.AllocatedNotPreemptible == old(q.Memory.AllocatedNotPreemptible) + add(pp.queues, ssn.ClusterInfo.PodGroupInfos[event.Task.Job].Queue, q, ite(ssn.ClusterInfo.PodGroupInfos[event.Task.Job].Preemptibility == "preemptible", 0.0, event.Task.AcceptedResource.memory))
+//@   ensures [GPUAllocated] forall q *rs.QueueAttributes :: q.GPU.Allocated == old(q.GPU.Allocated) + add(pp.queues, ssn.ClusterInfo.PodGroupInfos[event.Task.Job].Queue, q, event.Task.AcceptedResource.GetGpusQuota())
+//@   ensures [GPUAllocatedNotPreemptible] forall q *rs.QueueAttributes :: q.GPU.AllocatedNotPreemptible == old(q.GPU.AllocatedNotPreemptible) + add(pp.queues, ssn.ClusterInfo.PodGroupInfos[event.Task.Job].Queue, q, ite(ssn.ClusterInfo.PodGroupInfos[event.Task.Job].Preemptibility == "preemptible", 0.0, event.Task.AcceptedResource.GetGpusQuota()))
+//@   lemma [limitInvariant] forall n int :: 0 <= n && n < utils.depth(ssn.ClusterInfo.PodGroupInfos[event.Task.Job].Queue) ==> (old(cp.okQty(chainQ(pp.queues, ssn.ClusterInfo.PodGroupInfos[event.Task.Job].Queue, n).CPU.MaxAllowed, chainQ(pp.queues, ssn.ClusterInfo.PodGroupInfos[event.Task.Job].Queue, n).CPU.Allocated, event.Task.AcceptedResource.milliCpu)) ==> stays(chainQ(pp.queues, ssn.ClusterInfo.PodGroupInfos[event.Task.Job].Queue, n).CPU.MaxAllowed, chainQ(pp.queues, ssn.ClusterInfo.PodGroupInfos[event.Task.Job].Queue, n).CPU.Allocated, old(chainQ(pp.queues, ssn.ClusterInfo.PodGroupInfos[event.Task.Job].Queue, n).CPU.Allocated))) && (old(cp.okQty(chainQ(pp.queues, ssn.ClusterInfo.PodGroupInfos[event.Task.Job].Queue, n).Memory.MaxAllowed, chainQ(pp.queues, ssn.ClusterInfo.PodGroupInfos[event.Task.Job].Queue, n).Memory.Allocated, event.Task.AcceptedResource.memory)) ==> stays(chainQ(pp.queues, ssn.ClusterInfo.PodGroupInfos[event.Task.Job].Queue, n).Memory.MaxAllowed, chainQ(pp.queues, ssn.ClusterInfo.PodGroupInfos[event.Task.Job].Queue, n).Memory.Allocated, old(chainQ(pp.queues, ssn.ClusterInfo.PodGroupInfos[event.Task.Job].Queue, n).Memory.Allocated))) && (old(cp.okQty(chainQ(pp.queues, ssn.ClusterInfo.PodGroupInfos[event.Task.Job].Queue, n).GPU.MaxAllowed, chainQ(pp.queues, ssn.ClusterInfo.PodGroupInfos[event.Task.Job].Queue, n).GPU.Allocated, event.Task.AcceptedResource.GetGpusQuota())) ==> stays(chainQ(pp.queues, ssn.ClusterInfo.PodGroupInfos[event.Task.Job].Queue, n).GPU.MaxAllowed, chainQ(pp.queues, ssn.ClusterInfo.PodGroupInfos[event.Task.Job].Queue, n).GPU.Allocated, old(chainQ(pp.queues, ssn.ClusterInfo.PodGroupInfos[event.Task.Job].Queue, n).GPU.Allocated)))
+//@   lemma [quotaInvariant] ssn.ClusterInfo.PodGroupInfos[event.Task.Job].Preemptibility != "preemptible" ==> (forall n int :: 0 <= n && n < utils.depth(ssn.ClusterInfo.PodGroupInfos[event.Task.Job].Queue) ==> (old(cp.okQty(chainQ(pp.queues, ssn.ClusterInfo.PodGroupInfos[event.Task.Job].Queue, n).CPU.Deserved, chainQ(pp.queues, ssn.ClusterInfo.PodGroupInfos[event.Task.Job].Queue, n).CPU.AllocatedNotPreemptible, event.Task.AcceptedResource.milliCpu)) ==> stays(chainQ(pp.queues, ssn.ClusterInfo.PodGroupInfos[event.Task.Job].Queue, n).CPU.Deserved, chainQ(pp.queues, ssn.ClusterInfo.PodGroupInfos[event.Task.Job].Queue, n).CPU.AllocatedNotPreemptible, old(chainQ(pp.queues, ssn.ClusterInfo.PodGroupInfos[event.Task.Job].Queue, n).CPU.AllocatedNotPreemptible))) && (old(cp.okQty(chainQ(pp.queues, ssn.ClusterInfo.PodGroupInfos[event.Task.Job].Queue, n).Memory.Deserved, chainQ(pp.queues, ssn.ClusterInfo.PodGroupInfos[event.Task.Job].Queue, n).Memory.AllocatedNotPreemptible, event.Task.AcceptedResource.memory)) ==> stays(chainQ(pp.queues, ssn.ClusterInfo.PodGroupInfos[event.Task.Job].Queue, n).Memory.Deserved, chainQ(pp.queues, ssn.ClusterInfo.PodGroupInfos[event.Task.Job].Queue, n).Memory.AllocatedNotPreemptible, old(chainQ(pp.queues, ssn.ClusterInfo.PodGroupInfos[event.Task.Job].Queue, n).Memory.AllocatedNotPreemptible))) && (old(cp.okQty(chainQ(pp.queues, ssn.ClusterInfo.PodGroupInfos[event.Task.Job].Queue, n).GPU.Deserved, chainQ(pp.queues, ssn.ClusterInfo.PodGroupInfos[event.Task.Job].Queue, n).GPU.AllocatedNotPreemptible, event.Task.AcceptedResource.GetGpusQuota())) ==> stays(chainQ(pp.queues, ssn.ClusterInfo.PodGroupInfos[event.Task.Job].Queue, n).GPU.Deserved, chainQ(pp.queues, ssn.ClusterInfo.PodGroupInfos[event.Task.Job].Queue, n).GPU.AllocatedNotPreemptible, old(chainQ(pp.queues, ssn.ClusterInfo.PodGroupInfos[event.Task.Job].Queue, n).GPU.AllocatedNotPreemptible))))
+//@ end
+
+// Mirror image: the deallocate handler subtracts exactly what the allocate handler added.
+//@ func (*proportionPlugin).deallocateHandlerFn$1
+//@   props C08 C14 C10
+//@   requires pp != nil && ssn != nil && ssn.ClusterInfo != nil && event != nil && event.Task != nil && event.Task.AcceptedResource != nil
+//@   requires ssn.ClusterInfo.PodGroupInfos[event.Task.Job] != nil
+//@   requires utils.chainOK(pp.queues, ssn.ClusterInfo.PodGroupInfos[event.Task.Job].Queue) && utils.depth(ssn.ClusterInfo.PodGroupInfos[event.Task.Job].Queue) >= 1
+//@   modifies family(pp.queues[ssn.ClusterInfo.PodGroupInfos[event.Task.Job].Queue].CPU.Allocated), family(pp.queues[ssn.ClusterInfo.PodGroupInfos[event.Task.Job].Queue].CPU.AllocatedNotPreemptible)
+//@   loop 1
+//@     invariant ok ==> utils.onChain(pp.queues, job.Queue, queue)
+//@     invariant forall q *rs.QueueAttributes :: q.CPU.Allocated == old(q.CPU.Allocated) - addUpTo(pp.queues, job.Queue, q, ok, queue, taskResources["CPU"])
+//@     invariant forall q *rs.QueueAttributes :: q.CPU.AllocatedNotPreemptible == old(q.CPU.AllocatedNotPreemptible) - addUpTo(pp.queues, job.Queue, q, ok, queue, ite(isPreemptibleJob, 0.0, taskResources["CPU"]))
+//@     invariant forall q *rs.QueueAttributes :: q.Memory.Allocated == old(q.Memory.Allocated) - addUpTo(pp.queues, job.Queue, q, ok, queue, taskResources["Memory"])
+//@     invariant forall q *rs.QueueAttributes :: q.Memory.AllocatedNotPreemptible == old(q.Memory.AllocatedNotPreemptible) - addUpTo(pp.queues, job.Queue, q, ok, queue, ite(isPreemptibleJob, 0.0, taskResources["Memory"]))
+//@     invariant forall q *rs.QueueAttributes :: q.GPU.Allocated == old(q.GPU.Allocated) - addUpTo(pp.queues, job.Queue, q, ok, queue, taskResources["GPU"])
+//@     invariant forall q *rs.QueueAttributes :: q.GPU.AllocatedNotPreemptible == old(q.GPU.AllocatedNotPreemptible) - addUpTo(pp.queues, job.Queue, q, ok, queue, ite(isPreemptibleJob, 0.0, taskResources["GPU"]))
+//@     decreases ite(ok, utils.depth(job.Queue) - utils.lvl(queue), 0)
+//@   loop 2 unroll 3
+//@   ensures [CPUAllocated] forall q *rs.QueueAttributes :: q.CPU.Allocated == old(q.CPU.Allocated) - add(pp.queues, ssn.ClusterInfo.PodGroupInfos[event.Task.Job].Queue, q, event.Task.AcceptedResource.milliCpu)
+//@   ensures [CPUAllocatedNotPreemptible] forall q *rs.QueueAttributes :: q.CPU.AllocatedNotPreemptible == old(q.CPU.AllocatedNotPreemptible) - add(pp.queues, ssn.ClusterInfo.PodGroupInfos[event.Task.Job].Queue, q, ite(ssn.ClusterInfo.PodGroupInfos[event.Task.Job].Preemptibility == "preemptible", 0.0, event.Task.AcceptedResource.milliCpu))
+//@   ensures [MemoryAllocated] forall q *rs.QueueAttributes :: q.Memory.Allocated == old(q.Memory.Allocated) - add(pp.queues, ssn.ClusterInfo.PodGroupInfos[event.Task.Job].Queue, q, event.Task.AcceptedResource.memory)
+//@   ensures [MemoryAllocatedNotPreemptible] forall q *rs.QueueAttributes :: q.Memory.AllocatedNotPreemptible == old(q.Memory.AllocatedNotPreemptible) - add(pp.queues, ssn.ClusterInfo.PodGroupInfos[event.Task.Job].Queue, q, ite(ssn.ClusterInfo.PodGroupInfos[event.Task.Job].Preemptibility == "preemptible", 0.0, event.Task.AcceptedResource.memory))
+//@   ensures [GPUAllocated] forall q *rs.QueueAttributes :: q.GPU.Allocated == old(q.GPU.Allocated) - add(pp.queues, ssn.ClusterInfo.PodGroupInfos[event.Task.Job].Queue, q, event.Task.AcceptedResource.GetGpusQuota())
+//@   ensures [GPUAllocatedNotPreemptible] forall q *rs.QueueAttributes :: q.GPU.AllocatedNotPreemptible == old(q.GPU.AllocatedNotPreemptible) - add(pp.queues, ssn.ClusterInfo.PodGroupInfos[event.Task.Job].Queue, q, ite(ssn.ClusterInfo.PodGroupInfos[event.Task.Job].Preemptibility == "preemptible", 0.0, event.Task.AcceptedResource.GetGpusQuota()))
+//@ end
+
+// ---- queue hierarchy helpers (C09 recursion inputs, C10 nil safety) ------------------------------
+// Top queues = exactly the queues without a parent, keyed by their own id. Needs the map to be keyed
+// by UID (established by createQueueResourceAttrs) and to have no nil entry.
+//@ func (*proportionPlugin).getTopQueues
+//@   props C09 C10
+//@   requires pp != nil
+//@   requires forall k in pp.queues :: pp.queues[k] != nil && pp.queues[k].UID == k
+//@   fresh
+//@   loop 1
+//@     invariant topQueues != nil && fresh(topQueues)
+//@     invariant forall k in visited :: k in pp.queues
+//@     invariant forall k common_info.QueueID :: k in topQueues <==> (k in visited && len(pp.queues[k].ParentQueue) == 0)
+//@     invariant forall k in topQueues :: topQueues[k] == pp.queues[k] && topQueues[k] != nil
+//@   ensures forall k common_info.QueueID :: k in result <==> (k in pp.queues && len(pp.queues[k].ParentQueue) == 0)
+//@   ensures forall k in result :: result[k] == pp.queues[k] && result[k] != nil
+//@ end
+
+// Child map of a queue: one entry per listed child id, value = that child's attributes. A listed id
+// that is missing from pp.queues yields a NIL entry (C10: SetResourcesShare dereferences it), which is
+// exactly what [sameObjects] says: result[k] == pp.queues[k] (nil when k is absent).
+//@ func (*proportionPlugin).getChildQueues
+//@   props C09 C10
+//@   requires pp != nil && parentQueue != nil
+//@   fresh
+//@   loop 1
+//@     invariant childQueues != nil && fresh(childQueues)
+//@     invariant 0 - 1 <= rangeindex && rangeindex < len(parentQueue.ChildQueues)
+//@     invariant forall i int :: 0 <= i && i <= rangeindex ==> parentQueue.ChildQueues[i] in childQueues
+//@     invariant forall k in childQueues :: childQueues[k] == pp.queues[k]
+//@     invariant (forall i int :: 0 <= i && i < len(parentQueue.ChildQueues) ==> parentQueue.ChildQueues[i] in pp.queues) ==> (forall k in childQueues :: k in pp.queues)
+//@   ensures [allChildren] forall i int :: 0 <= i && i < len(parentQueue.ChildQueues) ==> parentQueue.ChildQueues[i] in result
+//@   ensures [sameObjects] forall k in result :: result[k] == pp.queues[k]
+//@   ensures [noNilChild] (forall i int :: 0 <= i && i < len(parentQueue.ChildQueues) ==> parentQueue.ChildQueues[i] in pp.queues) ==> (forall k in result :: k in pp.queues)
+//@ end
+
+// ---- session getters (C10 nil sweep): total only for queues that are in the plugin's map ----------
+//@ func (*proportionPlugin).getQueueDeservedResourcesFn
+//@   props C10 C08
+//@   requires pp != nil && queue != nil
+//@   requires queue.UID in pp.queues && pp.queues[queue.UID] != nil && rs.cacheOK(pp.queues[queue.UID])
+//@   modifies pp.queues[queue.UID].lastDeservedShare
+//@   ensures result != nil && result.milliCpu == pp.queues[queue.UID].CPU.Deserved && result.memory == pp.queues[queue.UID].Memory.Deserved
+//@   ensures rs.cacheOK(pp.queues[queue.UID])
+//@ end
+
+//@ func (*proportionPlugin).getQueueFairShareFn
+//@   props C10 C09
+//@   requires pp != nil && queue != nil
+//@   requires queue.UID in pp.queues && pp.queues[queue.UID] != nil && rs.cacheOK(pp.queues[queue.UID])
+//@   modifies pp.queues[queue.UID].lastFairShare
+//@   ensures result != nil && result.milliCpu == pp.queues[queue.UID].CPU.FairShare && result.memory == pp.queues[queue.UID].Memory.FairShare
+//@   ensures rs.cacheOK(pp.queues[queue.UID])
+//@ end
+
+//@ func (*proportionPlugin).getQueueAllocatedResourceFn
+//@   props C10 C08 C14
+//@   requires pp != nil && queue != nil
+//@   requires queue.UID in pp.queues && pp.queues[queue.UID] != nil
+//@   ensures result != nil && result.milliCpu == pp.queues[queue.UID].CPU.Allocated && result.memory == pp.queues[queue.UID].Memory.Allocated
+//@ end
+
+// ---- fair-share recursion over the hierarchy (C09 / C10) ---------------------------------------------
+// every queue record of the plugin is usable: non-nil, keyed by its UID, coherent caches, non-negative
+// over-quota weights, and every listed child id is present (so getChildQueues yields no nil entry)
+//@ define shapeOK(m map[common_info.QueueID]*rs.QueueAttributes) bool = forall k in m :: m[k] != nil && m[k].UID == k && m[k].CPU.OverQuotaWeight >= 0.0 && m[k].Memory.OverQuotaWeight >= 0.0 && m[k].GPU.OverQuotaWeight >= 0.0
+// every child id listed by a value of `sub` is a key of m (flat two-variable form: one E-matching step)
+//@ define kidsIn(sub map[common_info.QueueID]*rs.QueueAttributes, m map[common_info.QueueID]*rs.QueueAttributes) bool = forall k common_info.QueueID, i int :: k in sub && 0 <= i && i < len(sub[k].ChildQueues) ==> sub[k].ChildQueues[i] in m
+//@ define childrenPresent(m map[common_info.QueueID]*rs.QueueAttributes) bool = kidsIn(m, m)
+//@ define cachesOK(m map[common_info.QueueID]*rs.QueueAttributes) bool = forall k in m :: rs.cacheOK(m[k])
+//@ define keysIn(sub map[common_info.QueueID]*rs.QueueAttributes, m map[common_info.QueueID]*rs.QueueAttributes) bool = forall k in sub :: k in m
+//@ define sameAs(sub map[common_info.QueueID]*rs.QueueAttributes, m map[common_info.QueueID]*rs.QueueAttributes) bool = forall k in sub :: sub[k] == m[k]
+
+// C09: every level divides the parent's fair share among its children (SetResourcesShare on the child
+// map with resources = parent.GetFairShare()); C10: no nil child entry is dereferenced when every listed
+// child is present. Partial correctness only: termination of the recursion needs the child graph to be
+// acyclic AND a measure "max height over a map", which the spec language cannot express (see report).
+//@ func (*proportionPlugin).setFairShareForQueues
+//@   props C09 C10
+//@   requires pp != nil && shapeOK(pp.queues)
+//@   requires childrenPresent(pp.queues)
+//@   requires cachesOK(pp.queues)
+//@   requires keysIn(queues, pp.queues)
+//@   requires sameAs(queues, pp.queues)
+//@   modifies family(pp.queues[""].CPU.FairShare), family(pp.queues[""].lastFairShare)
+//@   loop 1
+//@     invariant shapeOK(pp.queues)
+//@     invariant childrenPresent(pp.queues)
+//@     invariant keysIn(queues, pp.queues)
+//@     invariant sameAs(queues, pp.queues)
+//@     invariant cachesOK(pp.queues)
+//@   ensures [cachesKept] cachesOK(pp.queues)
+//@ end
+
+// ==== input-building glue (helper "glue") ==========================================================
+// Properties C09 ("each queue's fair share is at least min(deserved quota, its request capped by its
+// limit) ... monotone in over-quota weight", "for every ... resource"), C08 ("its configured limit in any
+// resource", "its deserved quota") and C07 ("within its deserved quota in every resource") all read the
+// per-resource inputs Deserved / MaxAllowed / OverQuotaWeight of rs.QueueAttributes. These inputs are the
+// queue's configured quota / limit / overQuotaWeight OF THE SAME RESOURCE: CPU in milli-cpu as configured,
+// memory in bytes-units of the scheduler (configured value * 1000000, never below the -1 "unlimited"
+// sentinel), GPUs as configured. One define per resource: a stanza reading another resource's field fails
+// the obligation named after the resource.
+//@ define cpuFromCPU(a *rs.QueueAttributes, q *queue_info.QueueInfo) bool = a.CPU.Deserved == q.Resources.CPU.Quota && a.CPU.MaxAllowed == q.Resources.CPU.Limit && a.CPU.OverQuotaWeight == q.Resources.CPU.OverQuotaWeight
+//@ define memoryFromMemory(a *rs.QueueAttributes, q *queue_info.QueueInfo) bool = a.Memory.Deserved == max(0.0 - 1.0, q.Resources.Memory.Quota * 1000000.0) && a.Memory.MaxAllowed == max(0.0 - 1.0, q.Resources.Memory.Limit * 1000000.0) && a.Memory.OverQuotaWeight == q.Resources.Memory.OverQuotaWeight
+//@ define gpuFromGPU(a *rs.QueueAttributes, q *queue_info.QueueInfo) bool = a.GPU.Deserved == q.Resources.GPU.Quota && a.GPU.MaxAllowed == q.Resources.GPU.Limit && a.GPU.OverQuotaWeight == q.Resources.GPU.OverQuotaWeight
+// identity, hierarchy links, priority and age are copied from the queue
+//@ define metaFromQueue(a *rs.QueueAttributes, q *queue_info.QueueInfo) bool = a.UID == q.UID && a.Name == q.Name && a.ParentQueue == q.ParentQueue && a.ChildQueues == q.ChildQueues && a.Priority == q.Priority && a.CreationTimestamp == q.CreationTimestamp
+
+// historical usage (time-based fairness input) comes from the usage record of the same queue, resource by resource
+//@ define usageFromUsage(a *rs.QueueAttributes, u queue_info.QueueUsage) bool = a.CPU.Usage == u["cpu"] && a.Memory.Usage == u["memory"] && a.GPU.Usage == u["nvidia.com/gpu"]
+// a freshly built record carries no allocation, no request and no fair share yet
+//@ define zeroShare(s *rs.ResourceShare) bool = s.FairShare == 0.0 && s.Allocated == 0.0 && s.AllocatedNotPreemptible == 0.0 && s.Request == 0.0
+
+//@ func (*proportionPlugin).createQueueResourceAttrs
+//@   props C09 C08 C07 C10
+//@   requires pp != nil && ssn != nil && ssn.ClusterInfo != nil && pp.queues != nil
+//@   requires forall k in ssn.ClusterInfo.Queues :: ssn.ClusterInfo.Queues[k] != nil && ssn.ClusterInfo.Queues[k].UID == k
+//@   modifies pp.queues[*]
+//@   loop 1
+//@     invariant forall k in visited :: k in ssn.ClusterInfo.Queues
+//@     invariant forall k in visited :: k in pp.queues && pp.queues[k] != nil && allocated(pp.queues[k])
+//@     invariant forall s *rs.ResourceShare :: old(allocated(s)) ==> s.Deserved == old(s.Deserved) && s.MaxAllowed == old(s.MaxAllowed) && s.OverQuotaWeight == old(s.OverQuotaWeight) && s.FairShare == old(s.FairShare)
+//@     invariant forall s *rs.ResourceShare :: old(allocated(s)) ==> s.Allocated == old(s.Allocated) && s.AllocatedNotPreemptible == old(s.AllocatedNotPreemptible) && s.Request == old(s.Request) && s.Usage == old(s.Usage)
+//@     invariant forall s *rs.QueueResourceShare :: old(allocated(s)) ==> s.lastDeservedShare == old(s.lastDeservedShare)
+//@     invariant forall k in visited :: cpuFromCPU(pp.queues[k], ssn.ClusterInfo.Queues[k])
+//@     invariant forall k in visited :: memoryFromMemory(pp.queues[k], ssn.ClusterInfo.Queues[k])
+//@     invariant forall k in visited :: gpuFromGPU(pp.queues[k], ssn.ClusterInfo.Queues[k])
+//@     invariant forall k in visited :: metaFromQueue(pp.queues[k], ssn.ClusterInfo.Queues[k])
+//@     invariant forall k in visited :: k in ssn.ClusterInfo.QueueResourceUsage.Queues ==> usageFromUsage(pp.queues[k], ssn.ClusterInfo.QueueResourceUsage.Queues[k])
+//@     invariant forall k in visited :: !(k in ssn.ClusterInfo.QueueResourceUsage.Queues) ==> pp.queues[k].CPU.Usage == 0.0 && pp.queues[k].Memory.Usage == 0.0 && pp.queues[k].GPU.Usage == 0.0
+//@     invariant forall k in visited :: rs.cacheOK(pp.queues[k])
+//@     invariant forall k in visited :: zeroShare(pp.queues[k].CPU) && zeroShare(pp.queues[k].Memory) && zeroShare(pp.queues[k].GPU)
+//@     invariant forall k common_info.QueueID :: !(k in visited) ==> pp.queues[k] == old(pp.queues[k]) && (k in pp.queues) == old(k in pp.queues)
+//@     invariant forall k common_info.QueueID :: k in pp.queues ==> k in visited || old(k in pp.queues)
+//@   ensures [present] forall k in ssn.ClusterInfo.Queues :: k in pp.queues && pp.queues[k] != nil
+//@   ensures [cpuFromCPU] forall k in ssn.ClusterInfo.Queues :: cpuFromCPU(pp.queues[k], ssn.ClusterInfo.Queues[k])
+//@   ensures [memoryFromMemory] forall k in ssn.ClusterInfo.Queues :: memoryFromMemory(pp.queues[k], ssn.ClusterInfo.Queues[k])
+//@   ensures [gpuFromGPU] forall k in ssn.ClusterInfo.Queues :: gpuFromGPU(pp.queues[k], ssn.ClusterInfo.Queues[k])
+//@   ensures [metaFromQueue] forall k in ssn.ClusterInfo.Queues :: metaFromQueue(pp.queues[k], ssn.ClusterInfo.Queues[k])
+//@   ensures [usageFromUsage] forall k in ssn.ClusterInfo.Queues :: k in ssn.ClusterInfo.QueueResourceUsage.Queues ==> usageFromUsage(pp.queues[k], ssn.ClusterInfo.QueueResourceUsage.Queues[k])
+//@   ensures [noUsageRecord] forall k in ssn.ClusterInfo.Queues :: !(k in ssn.ClusterInfo.QueueResourceUsage.Queues) ==> pp.queues[k].CPU.Usage == 0.0 && pp.queues[k].Memory.Usage == 0.0 && pp.queues[k].GPU.Usage == 0.0
+//@   ensures [cachesOK] forall k in ssn.ClusterInfo.Queues :: rs.cacheOK(pp.queues[k])
+//@   ensures [zeroed] forall k in ssn.ClusterInfo.Queues :: zeroShare(pp.queues[k].CPU) && zeroShare(pp.queues[k].Memory) && zeroShare(pp.queues[k].GPU)
+//@   ensures [othersKept] forall k common_info.QueueID :: !(k in ssn.ClusterInfo.Queues) ==> pp.queues[k] == old(pp.queues[k]) && (k in pp.queues) == old(k in pp.queues)
+//@   ensures [exactKeys] forall k common_info.QueueID :: k in pp.queues <==> (k in ssn.ClusterInfo.Queues || old(k in pp.queues))
+//@ end
+
+// ---- usage bookkeeping at session open (C14 establish, C08 inputs) -----------------------------------
+// The per-task charge is exact in the two callees above (job's queue and EVERY ancestor, per resource,
+// AllocatedNotPreemptible iff the job is non-preemptible). The fold over all jobs / statuses / tasks is a
+// sum over map key sets, which the spec language cannot express; what IS decided here, for every iteration
+// order of the three nested maps:
+//  [offChainUntouched]   a queue that is on the parent chain of no job's queue keeps all nine counters;
+//  [onlyAllocatedChargesAllocated] if no pod-status key of any job is an allocated status, no Allocated /
+//                        AllocatedNotPreemptible counter moves (pending tasks raise Request only);
+//  [nonPreemptibleOnlyFromNonPreemptible] if every job is preemptible no AllocatedNotPreemptible moves;
+//  [requestFollowsAllocated] without Pending keys, Request and Allocated move by the same amount;
+//  frame: nothing but Allocated / Request / AllocatedNotPreemptible changes (Deserved, MaxAllowed,
+//  OverQuotaWeight, FairShare, Usage, the queue map and the hierarchy links are inputs and stay).
+//@ define jobsOK(pp *proportionPlugin, ssn *framework.Session) bool = forall j in ssn.ClusterInfo.PodGroupInfos :: ssn.ClusterInfo.PodGroupInfos[j] != nil && utils.chainOK(pp.queues, ssn.ClusterInfo.PodGroupInfos[j].Queue)
+//@ define tasksOK(ssn *framework.Session) bool = forall t *pod_info.PodInfo :: t != nil ==> t.AcceptedResource != nil && t.ResReq != nil
+//@ define noNilTask(ssn *framework.Session) bool = forall j in ssn.ClusterInfo.PodGroupInfos :: forall st in ssn.ClusterInfo.PodGroupInfos[j].PodStatusIndex :: forall id in ssn.ClusterInfo.PodGroupInfos[j].PodStatusIndex[st] :: ssn.ClusterInfo.PodGroupInfos[j].PodStatusIndex[st][id] != nil
+//@ define offAllChains(pp *proportionPlugin, ssn *framework.Session, q *rs.QueueAttributes) bool = forall j in ssn.ClusterInfo.PodGroupInfos :: !utils.onChain(pp.queues, ssn.ClusterInfo.PodGroupInfos[j].Queue, q)
+//@ define noAllocatedStatus(ssn *framework.Session) bool = forall j in ssn.ClusterInfo.PodGroupInfos :: forall st in ssn.ClusterInfo.PodGroupInfos[j].PodStatusIndex :: bitand(pod_status.allocatedStatuses, st) == 0
+//@ define allPreemptible(ssn *framework.Session) bool = forall j in ssn.ClusterInfo.PodGroupInfos :: ssn.ClusterInfo.PodGroupInfos[j].Preemptibility == "preemptible"
+//@ define noPendingStatus(ssn *framework.Session) bool = forall j in ssn.ClusterInfo.PodGroupInfos :: !(pod_status.Pending in ssn.ClusterInfo.PodGroupInfos[j].PodStatusIndex)
+//@ define allocSame(q *rs.QueueAttributes) bool = q.CPU.Allocated == old(q.CPU.Allocated) && q.Memory.Allocated == old(q.Memory.Allocated) && q.GPU.Allocated == old(q.GPU.Allocated)
+//@ define anpSame(q *rs.QueueAttributes) bool = q.CPU.AllocatedNotPreemptible == old(q.CPU.AllocatedNotPreemptible) && q.Memory.AllocatedNotPreemptible == old(q.Memory.AllocatedNotPreemptible) && q.GPU.AllocatedNotPreemptible == old(q.GPU.AllocatedNotPreemptible)
+//@ define reqSame(q *rs.QueueAttributes) bool = q.CPU.Request == old(q.CPU.Request) && q.Memory.Request == old(q.Memory.Request) && q.GPU.Request == old(q.GPU.Request)
+//@ define reqMinusAllocSame(q *rs.QueueAttributes) bool = q.CPU.Request - q.CPU.Allocated == old(q.CPU.Request - q.CPU.Allocated) && q.Memory.Request - q.Memory.Allocated == old(q.Memory.Request - q.Memory.Allocated) && q.GPU.Request - q.GPU.Allocated == old(q.GPU.Request - q.GPU.Allocated)
+
+//@ func (*proportionPlugin).updateQueuesCurrentResourceUsage
+//@   props C14 C08 C10
+//@   requires pp != nil && ssn != nil && ssn.ClusterInfo != nil
+//@   requires jobsOK(pp, ssn)
+//@   requires tasksOK(ssn)
+//@   requires noNilTask(ssn)
+//@   requires ssn.ClusterInfo.MinNodeGPUMemory > 0   // established by snapshotNodes (starts at DefaultGpuMemory = 100)
+//@   modifies family(pp.queues[""].CPU.Allocated), family(pp.queues[""].CPU.Request), family(pp.queues[""].CPU.AllocatedNotPreemptible)
+//@   loop 1
+//@     invariant forall m rs.ResourceQuantities, r string :: old(allocated(m)) ==> m[r] == old(m[r]) && (r in m) == old(r in m)
+//@     invariant forall q *rs.QueueAttributes :: offAllChains(pp, ssn, q) ==> allocSame(q) && anpSame(q) && reqSame(q)
+//@     invariant noAllocatedStatus(ssn) ==> (forall q *rs.QueueAttributes :: allocSame(q) && anpSame(q))
+//@     invariant allPreemptible(ssn) ==> (forall q *rs.QueueAttributes :: anpSame(q))
+//@     invariant noPendingStatus(ssn) ==> (forall q *rs.QueueAttributes :: reqMinusAllocSame(q))
+//@   loop 2
+//@     invariant forall m rs.ResourceQuantities, r string :: old(allocated(m)) ==> m[r] == old(m[r]) && (r in m) == old(r in m)
+//@     invariant forall q *rs.QueueAttributes :: offAllChains(pp, ssn, q) ==> allocSame(q) && anpSame(q) && reqSame(q)
+//@     invariant noAllocatedStatus(ssn) ==> (forall q *rs.QueueAttributes :: allocSame(q) && anpSame(q))
+//@     invariant allPreemptible(ssn) ==> (forall q *rs.QueueAttributes :: anpSame(q))
+//@     invariant noPendingStatus(ssn) ==> (forall q *rs.QueueAttributes :: reqMinusAllocSame(q))
+//@   loop 3
+//@     invariant forall q *rs.QueueAttributes :: offAllChains(pp, ssn, q) ==> allocSame(q) && anpSame(q) && reqSame(q)
+//@     invariant noAllocatedStatus(ssn) ==> (forall q *rs.QueueAttributes :: allocSame(q) && anpSame(q))
+//@     invariant allPreemptible(ssn) ==> (forall q *rs.QueueAttributes :: anpSame(q))
+//@     invariant noPendingStatus(ssn) ==> (forall q *rs.QueueAttributes :: reqMinusAllocSame(q))
+//@   loop 4
+//@     invariant forall m rs.ResourceQuantities, r string :: old(allocated(m)) ==> m[r] == old(m[r]) && (r in m) == old(r in m)
+//@     invariant forall q *rs.QueueAttributes :: offAllChains(pp, ssn, q) ==> allocSame(q) && anpSame(q) && reqSame(q)
+//@     invariant noAllocatedStatus(ssn) ==> (forall q *rs.QueueAttributes :: allocSame(q) && anpSame(q))
+//@     invariant allPreemptible(ssn) ==> (forall q *rs.QueueAttributes :: anpSame(q))
+//@     invariant noPendingStatus(ssn) ==> (forall q *rs.QueueAttributes :: reqMinusAllocSame(q))
+//@   ensures [offChainUntouched] forall q *rs.QueueAttributes :: offAllChains(pp, ssn, q) ==> allocSame(q) && anpSame(q) && reqSame(q)
+//@   ensures [onlyAllocatedChargesAllocated] noAllocatedStatus(ssn) ==> (forall q *rs.QueueAttributes :: allocSame(q) && anpSame(q))
+//@   ensures [nonPreemptibleOnlyFromNonPreemptible] allPreemptible(ssn) ==> (forall q *rs.QueueAttributes :: anpSame(q))
+//@   ensures [requestFollowsAllocated] noPendingStatus(ssn) ==> (forall q *rs.QueueAttributes :: reqMinusAllocSame(q))
+//@ end
+
+// ---- session-open composition --------------------------------------------------------------------
+// setFairShare starts the C09 recursion at the top queues with the cluster totals. Only FairShare (and its
+// cache) moves: the per-resource inputs built above are still the configured ones afterwards.
+//@ func (*proportionPlugin).setFairShare
+//@   props C09 C10
+//@   requires pp != nil && shapeOK(pp.queues)
+//@   requires childrenPresent(pp.queues)
+//@   requires cachesOK(pp.queues)
+//@   modifies family(pp.queues[""].CPU.FairShare), family(pp.queues[""].lastFairShare)
+//@   ensures [cachesKept] cachesOK(pp.queues)
+//@ end
+
+// ---- simulation copy (C07: the reclaim scenario validator reads pp.jobSimulationQueues) ----------------
+// At the start of a job's solution the validator's queue map is a COPY of the live one: same key set, a
+// distinct attributes object per queue, and per resource the same Deserved / FairShare / MaxAllowed /
+// OverQuotaWeight / Allocated / AllocatedNotPreemptible / Request / Usage, same identity and parent link.
+//@ define sameShare(a *rs.ResourceShare, b *rs.ResourceShare) bool = a.Deserved == b.Deserved && a.FairShare == b.FairShare && a.MaxAllowed == b.MaxAllowed && a.OverQuotaWeight == b.OverQuotaWeight && a.Allocated == b.Allocated && a.AllocatedNotPreemptible == b.AllocatedNotPreemptible && a.Request == b.Request && a.Usage == b.Usage
+//@ define sameIdentity(a *rs.QueueAttributes, b *rs.QueueAttributes) bool = a.UID == b.UID && a.Name == b.Name && a.ParentQueue == b.ParentQueue && a.Priority == b.Priority
+
+//@ func slices.Clone
+//@   trusted
+//@   note library (slices): "Clone returns a copy of the slice. The elements are copied using assignment, so this is a shallow clone." Same length, same elements, nothing else written (used by rs.QueueAttributes.Clone for ChildQueues).
+//@   ensures [sameLength] len(result) == len(arg0)
+//@   ensures [sameElements] forall i in arg0 :: result[i] == arg0[i]
+//@ end
+
+//@ func (*proportionPlugin).OnJobSolutionStartFn
+//@   props C07
+//@   requires pp != nil && allocated(pp.queues)
+//@   requires forall k in pp.queues :: pp.queues[k] != nil && allocated(pp.queues[k])   // heap well-formedness: the live records exist before the copies are made
+//@   modifies pp.jobSimulationQueues
+//@   loop 1
+//@     invariant pp.jobSimulationQueues != nil && fresh(pp.jobSimulationQueues)
+//@     invariant forall k in visited :: k in pp.queues
+//@     invariant forall k common_info.QueueID :: pp.queues[k] == old(pp.queues[k]) && (k in pp.queues) == old(k in pp.queues)
+//@     invariant forall k in visited :: k in pp.jobSimulationQueues && pp.jobSimulationQueues[k] != nil && fresh(pp.jobSimulationQueues[k]) && allocated(pp.jobSimulationQueues[k])
+//@     invariant forall k in visited :: sameIdentity(pp.jobSimulationQueues[k], pp.queues[k])
+//@     invariant forall k in visited :: sameShare(pp.jobSimulationQueues[k].CPU, pp.queues[k].CPU)
+//@     invariant forall k in visited :: sameShare(pp.jobSimulationQueues[k].Memory, pp.queues[k].Memory)
+//@     invariant forall k in visited :: sameShare(pp.jobSimulationQueues[k].GPU, pp.queues[k].GPU)
+//@     invariant forall k in pp.jobSimulationQueues :: k in visited
+//@   ensures [copied] forall k in pp.queues :: k in pp.jobSimulationQueues && pp.jobSimulationQueues[k] != nil && pp.jobSimulationQueues[k] != pp.queues[k]
+//@   ensures [sameIdentity] forall k in pp.queues :: sameIdentity(pp.jobSimulationQueues[k], pp.queues[k])
+//@   ensures [cpuFromCPU] forall k in pp.queues :: sameShare(pp.jobSimulationQueues[k].CPU, pp.queues[k].CPU)
+//@   ensures [memoryFromMemory] forall k in pp.queues :: sameShare(pp.jobSimulationQueues[k].Memory, pp.queues[k].Memory)
+//@   ensures [gpuFromGPU] forall k in pp.queues :: sameShare(pp.jobSimulationQueues[k].GPU, pp.queues[k].GPU)
+//@   ensures [noExtraQueues] forall k in pp.jobSimulationQueues :: k in pp.queues
+//@ end
+
+// ---- plugin construction (C07 quantifier: "all saturation multipliers >= 1") ----------------------------
+// FINDING (kept OUT of the checked clauses, see helper report "glue"): the property-derived postconditions
+//   [multiplierAtLeastOne] unbox(result, "*proportionPlugin").relcaimerSaturationMultiplier >= 1.0
+//   [kValueNonNegative]    unbox(result, "*proportionPlugin").kValue >= 0.0
+// are violated by the real code for the plugin argument value "NaN": strconv.ParseFloat("NaN") succeeds,
+// `NaN < 1.0` / `NaN <= 0.0` are false, so the clamp is skipped and the plugin runs with a NaN multiplier /
+// kValue (reproduced with a Go test: New({"relcaimerSaturationMultiplier":"NaN","kValue":"NaN"})).
+// govc reports both as sat under `ieee`. What remains checked: the plugin starts with an empty queue map.
+//@ func New
+//@   props C07 C09
+//@   ieee
+//@   ensures [isProportionPlugin] typeis(result, "*proportionPlugin")
+//@   ensures [emptyQueueMap] unbox(result, "*proportionPlugin").queues != nil && (forall k common_info.QueueID :: !(k in unbox(result, "*proportionPlugin").queues))
+//@ end
